@@ -56,6 +56,8 @@ def machine_base(mod, ctx, findings, reported):
 def run_machine(mod, make_machine, n_examples, steps, seed, ctx, findings, reported, failures, max_buckets=2):
     # histories need more shrink steps than single documents; modules with expensive steps set their own cap
     ctx.shrink_cap = getattr(mod, "SHRINK_CAP", {}).get(getattr(ctx, "tier", "quick"), max(ctx.shrink_cap, 2500))
+    if getattr(ctx, "tier", "quick") == "quick":
+        max_buckets = 1          # one shrunk bucket per shard in the quick tier
     for attempt in range(max_buckets + 1):
         if len(failures) >= max_buckets or ctx.harness_error:
             break
